@@ -113,6 +113,16 @@ def build_case(rng, tier):
         if rng.random() < 0.3:
             evs.append(("flush",))
     evs.append(("tables", [name]))
+    # column lists naming an unknown column or a column twice: the value could not be stored, so the
+    # statement must be refused (until /repo 7956a4c such values were dropped silently)
+    for bl, vals in rng.sample([(["zz"], [5]), (["k", "k"], [900, 901]), (["k", "zz"], [902, "q"]),
+                                (["zz", "k"], [True, 903])], 2):
+        evs.append((rng.choice(["stmt", "dstmt"]), {"k": "insert", "table": name, "cols": bl, "rows": [vals]}))
+    evs.append(("dstmt", {"k": "update", "table": name, "sets": [(rng.choice(["zz", "K", "c99"]), 7)],
+                          "where": [[(("col", "", "k"), "=", rng.randint(1, max(1, serial[0])))]]}))
+    evs.append(("dstmt", {"k": "update", "table": name, "sets": [("k", 950), ("k", 951)],
+                          "where": [[(("col", "", "k"), "=", rng.randint(1, max(1, serial[0])))]]}))
+    evs.append(("tables", [name]))
     # updates with boundary values
     for _ in range(rng.randint(1, 4)):
         i = rng.choice([j for j in range(n) if j != kpos])
